@@ -72,7 +72,7 @@ var c19GapPool = []int64{0, 1, 1000, c19Sec - 1, c19Sec, c19Sec + 1, 2*c19Sec - 
 	6*c19Sec - 1, 6 * c19Sec, 6*c19Sec + 1, 7 * c19Sec, 1500 * c19Ms, 2500 * c19Ms, 64 * c19Sec, 301 * c19Sec}
 
 var c19OffPool = []int64{0, 1, -1, c19Ms, -c19Ms, c19Ms + 1, -c19Ms - 1, c19Ms - 1, -c19Ms + 1, 2 * c19Ms, -2 * c19Ms,
-	math.MaxInt64, math.MinInt64 + 1, 500000, -500000, 16 * c19Ms, 17 * c19Ms, -17 * c19Ms, c19Sec, -c19Sec}
+	math.MaxInt64, math.MinInt64 + 1, math.MinInt64, 500000, -500000, 16 * c19Ms, 17 * c19Ms, -17 * c19Ms, c19Sec, -c19Sec}
 
 var c19WPool = []float64{0, 1, 2.999, 3, math.Nextafter(3, 4), 3.5, 4, 10, 49.9, 50, 100, 149.9, 150, 151, 1000, 1e6,
 	-1, math.Inf(1), math.Inf(-1), math.NaN()}
@@ -248,7 +248,9 @@ func c19Run(r *ev.Run, id string, h c19Hist, cls c17Classes) (evals int64, trace
 		elapsed := u.Now - t0
 		qualifying := !first && awaiting && elapsed > 2*c19Sec && u.w > 3
 		absOff := u.Offset
-		if absOff < 0 {
+		if absOff == math.MinInt64 {
+			absOff = math.MaxInt64
+		} else if absOff < 0 {
 			absOff = -absOff
 		}
 		var gap int64
@@ -428,7 +430,6 @@ func init() {
 			r.Eval(evals)
 			cls.flush(r)
 		})
-		r.Assume("offsets != MinInt64 (its negation is not representable)")
 		r.Assume("clock readings non-decreasing; gaps between updates <= 2^61 ns; one clock reading per update")
 		r.Assume("for gaps >= 2^23 s the elapsed time in float64 seconds is not exact to the nanosecond: the expected duration ceil(dt) is accepted +-(1 s + 2 ulp)")
 		r.Assume("only necessary conditions from the statement are asserted: a missing step, the sign and size of p below the 500 ppm bound and the start of tracking are not judged")
